@@ -739,7 +739,11 @@ func (g *c08Gen) randSpec(p *c08Pod) {
 func (g *c08Gen) newPod(name string) c08Pod {
 	gp := g.pods[name]
 	gp.gen++
-	p := c08Pod{UID: fmt.Sprintf("%s.%d", name, gp.gen), Name: name, Sched: -1, Init: -1, Cs: -1, Ci: -1, Cf: c08V(0, 0)}
+	return g.podDesc(name, fmt.Sprintf("%s.%d", name, gp.gen))
+}
+
+func (g *c08Gen) podDesc(name, uid string) c08Pod {
+	p := c08Pod{UID: uid, Name: name, Sched: -1, Init: -1, Cs: -1, Ci: -1, Cf: c08V(0, 0)}
 	g.randSpec(&p)
 	p.DS = g.rng.Intn(12) == 0
 	if g.rng.Intn(3) == 0 {
@@ -910,8 +914,7 @@ func c08ThrVec(rng *rand.Rand) c08Vec {
 
 // allocatable steered to the decision boundary: reads (does not judge) what the real cache and estimator currently report
 func (g *c08Gen) filterOp(w *c08World, node string) *c08Op {
-	p := g.newPod("incoming")
-	p.UID = "incoming"
+	p := g.podDesc("incoming", "incoming")
 	if g.rng.Intn(3) > 0 {
 		p.Prio = "prod"
 	}
@@ -929,21 +932,80 @@ func (g *c08Gen) filterOp(w *c08World, node string) *c08Op {
 			nd.Ca.V["cpu"] = 50
 		}
 	}
-	// candidate thresholds and "existing" vectors (any of the three views), only to aim near a boundary
-	thr := [][]c08Vec{{g.cfg.UsageThr, nd.Cu.V}, {g.cfg.ProdThr, nd.Cp.V}, {g.cfg.AggThr, nd.Ca.V}}[g.rng.Intn(3)][g.rng.Intn(2)]
+	// a guess of the thresholds / "existing" vector that will apply, only to aim the inputs near a boundary
 	obs := c08Obs(w.cache, []string{node})[node].(vu.Ev)
-	base := obs[[]string{"node", "prod", "a0", "a300"}[g.rng.Intn(4)]].(c08Vec)
-	list, _ := w.pl.estimator.EstimatePod(c08BuildPod(&p))
-	inc := c08VecOf(w.pl.vectorizer, w.pl.vectorizer.ToFactorVec(list))
+	nz := func(v c08Vec) bool { return v["cpu"] != 0 || v["memory"] != 0 }
+	thr, base := g.cfg.UsageThr, obs["node"].(c08Vec)
+	if nd.Cu.Has {
+		thr = nd.Cu.V
+	}
+	prodThr := g.cfg.ProdThr
+	if nd.Cp.Has {
+		prodThr = nd.Cp.V
+	}
+	aggOn, aggThr, aggDur := g.cfg.AggOn, g.cfg.AggThr, g.cfg.AggDur
+	if nd.Ca.Has {
+		aggOn, aggThr, aggDur = true, nd.Ca.V, nd.Ca.Dur
+	}
+	if p.Prio == "prod" && nz(prodThr) {
+		thr, base = prodThr, obs["prod"].(c08Vec)
+	} else if aggOn {
+		thr = aggThr
+		if aggDur == 0 {
+			base = obs["a0"].(c08Vec)
+		} else if aggDur == 300 {
+			base = obs["a300"].(c08Vec)
+		}
+	}
+	if g.rng.Intn(6) == 0 {
+		thr = [][]c08Vec{{g.cfg.UsageThr, nd.Cu.V}, {g.cfg.ProdThr, nd.Cp.V}, {g.cfg.AggThr, nd.Ca.V}}[g.rng.Intn(3)][g.rng.Intn(2)]
+		base = obs[[]string{"node", "prod", "a0", "a300"}[g.rng.Intn(4)]].(c08Vec)
+	}
+	estimate := func() c08Vec {
+		list, _ := w.pl.estimator.EstimatePod(c08BuildPod(&p))
+		return c08VecOf(w.pl.vectorizer, w.pl.vectorizer.ToFactorVec(list))
+	}
+	nice := map[string][]int64{"cpu": {1000, 2000, 4000, 8000, 64000}, "memory": {1000000, 4000000, 1000000000}}
+	mode := map[string]int{"cpu": g.rng.Intn(10), "memory": g.rng.Intn(10)}
+	// phase 1 (mode >= 6): fix a round allocatable and aim the incoming pod's own estimate at the boundary / half point
 	for _, d := range []string{"cpu", "memory"} {
+		t := thr[d]
+		if mode[d] < 6 || t == 0 || g.cfg.Factors[d] == 0 || p.Prio == "free" {
+			continue
+		}
+		a := nice[d][g.rng.Intn(len(nice[d]))]
+		target := t * a / 100
+		if g.rng.Intn(2) == 0 {
+			target = (2*t + 1) * a / 200
+		}
+		needed := target + g.pick(-1, 0, 0, 0, 1) - base[d]
+		if needed < 1 || needed > 1500000 {
+			mode[d] = 3 // fall back to steering the allocatable
+			continue
+		}
+		p.Cf = c08V(0, 0)
+		p.Lim[d] = 0
+		p.Req[d] = needed * 100 / g.cfg.Factors[d]
+		for i := 0; i < 4; i++ {
+			if got := estimate()[d]; got != needed && p.Req[d]+(needed-got) >= 1 {
+				p.Req[d] += needed - got
+			}
+		}
+		nd.Alloc[d] = a
+	}
+	inc := estimate()
+	for _, d := range []string{"cpu", "memory"} {
+		if mode[d] >= 6 && nd.Alloc[d] != 0 {
+			continue
+		}
 		e, t := base[d]+inc[d], thr[d]
 		var a int64
-		switch k := g.rng.Intn(10); {
+		switch k := mode[d]; {
 		case k == 0:
 			a = 0
 		case k <= 2 || t == 0 || e == 0:
-			a = g.pick(1000, 4000, 64000, 1000000, 1000000000)
-		case k <= 5: // around e * 100 / t
+			a = nice[d][g.rng.Intn(len(nice[d]))]
+		case k <= 4: // around e * 100 / t
 			a = e*100/t + g.pick(-1, 0, 0, 1, 2)
 		default: // around the half point 200 e = (2 t + 1) a
 			a = 200*e/(2*t+1) + g.pick(-1, 0, 0, 1)
@@ -1020,7 +1082,15 @@ func c08Random(t *testing.T, rec *vu.Recorder, rng *rand.Rand, c *c08Cfg, steps 
 		case k < 75:
 			g.podOp(names[rng.Intn(len(names))])
 		case k < 96:
-			g.emit(g.filterOp(w, g.node()))
+			n := g.node()
+			if !g.hasM[n] && rng.Intn(5) > 0 { // mostly ask about nodes that have a report
+				for _, x := range c.Nodes {
+					if g.hasM[x] {
+						n = x
+					}
+				}
+			}
+			g.emit(g.filterOp(w, n))
 		default:
 			g.emit(&c08Op{Op: "rebuild", Variant: rng.Intn(4)})
 		}
